@@ -58,14 +58,31 @@ def scenarios(draw):
     dts = st.sampled_from([0.0, 0.1, 0.3, 0.5, 1.0, 2.0])
     env = st.one_of(st.builds(lambda o, v, dt: {'a': 'create', 'obj': o, 'v': v, 'dt': dt}, st.integers(0, 3), st.integers(0, 9), dts),
                     st.builds(lambda o, v, dt: {'a': 'edit_spec', 'obj': o, 'v': v, 'dt': dt}, st.integers(0, 3), st.integers(0, 9), dts),
+                    st.builds(lambda o, dt: {'a': 'delete', 'obj': o, 'dt': dt}, st.integers(0, 3), dts),
                     st.builds(lambda dt: {'a': 'advance', 'dt': dt}, dts))
     before = draw(st.lists(env, max_size=5))
+    stopping_family = False
+    if draw(st.integers(0, 4)) == 0:
+        # the trigger comes while a daemon is already being stopped for another reason (its object is being deleted): the staged
+        # termination of the worker is in progress - flag set, cancellation or abandonment still ahead - when the operator exits
+        handlers = [h for h in handlers if h['kind'] != 'daemon']
+        handlers.append({'kind': 'daemon', 'id': 'dm0', 'behaviour': draw(st.sampled_from(['cancel', 'cancel', 'obey'])),
+                         'exit_delay': draw(st.sampled_from([0, 0.5])), 'cancellation_backoff': draw(st.sampled_from([1.0, 2.0])),
+                         'cancellation_timeout': draw(st.sampled_from([None, 2.0]))})
+        if not any(h['kind'] == 'cleanup' for h in handlers):
+            handlers.append({'kind': 'cleanup', 'id': 'c0', 'script': [{'o': 'ok'}], 'duration': 0})
+        spec['handlers'] = handlers
+        stopping_family = True
+        o = draw(st.integers(0, 1))
+        before += [{'a': 'create', 'obj': o, 'v': 1, 'dt': 2.0}, {'a': 'delete', 'obj': o, 'dt': draw(st.sampled_from([0.0, 0.1, 0.5, 1.0, 1.5]))}]
     if draw(st.integers(0, 3)) == 0:
         # an event queued behind a slow handler when the trigger comes
         next(h for h in handlers if h['id'] == 'c')['duration'] = 3.0
         o = draw(st.integers(0, 3))
         before += [{'a': 'create', 'obj': o, 'v': 1, 'dt': draw(st.sampled_from([0.1, 0.5]))}, {'a': 'edit_spec', 'obj': o, 'v': 2, 'dt': draw(st.sampled_from([0.1, 0.5, 1.0]))}]
     trigger = draw(st.sampled_from(['stop', 'stop', 'cancel', 'crd-stream-error', 'served-stream-error', 'none']))
+    if stopping_family:
+        trigger = draw(st.sampled_from(['stop', 'stop', 'stop', 'cancel', 'crd-stream-error']))
     return {'seed': draw(st.integers(0, 9999)), 'spec': spec, 'peering': peering, 'pre': pre, 'warmup': draw(st.sampled_from([0.0, 0.0, 0.2, 0.7, 2.0])),
             'actions': before, 'trigger': trigger, 'auto_restart': False,
             # (a slow API: the trigger may come while a request - e.g. the very first keep-alive of the peering - is applied but unanswered)
@@ -212,7 +229,15 @@ def check(run, res, bound):
                 msg = (f'the cleanup handler started at t={t0} while {x["kind"]} handler {x["hid"]} of {x.get("name")} '
                        f'(started at t={x["t0"]}) was still running (ended at {x["t1"]})')
                 asked = x['kind'] != 'daemon' or (x.get('flag_set_at') is not None and x['flag_set_at'] <= t0 + TOL)
-                if asked:
+                # a daemon is let go by the exiting operator only after its own grace periods, counted from the exit at the earliest
+                # (daemons.stop_daemon: flag, wait for the backoff, cancel, wait for the timeout, abandon); finding R is about
+                # what is still running *after* that
+                hd = next((h for h in spec['handlers'] if h['id'] == x['hid']), {})
+                grace = (hd.get('cancellation_backoff') or 0) + (hd.get('cancellation_timeout') or 0)
+                if asked and x['kind'] == 'daemon' and t_trig is not None and t0 < t_trig + grace - TOL:
+                    res.fail('C20/cleanup-before-daemon-let-go', msg + f'; the operator was asked to stop at t={t_trig} and the daemon\'s '
+                             f'cancellation backoff + timeout are {grace}s: it was neither waited for nor cancelled')
+                elif asked:
                     res.known.append({'id': 'C20-R-cleanup-starts-while-handlers-still-run', 'msg': msg})
                 else:
                     res.fail('C20/cleanup-before-daemons-asked-to-stop', msg + '; it was not even asked to stop')
@@ -249,6 +274,9 @@ def check(run, res, bound):
             res.label('trigger-with-daemon-and-handler-in-flight')
         if during_startup:
             res.label('trigger-during-startup')
+        if any(x['kind'] == 'daemon' and x.get('flag_set_at') is not None and x['flag_set_at'] < t_trig - TOL and (x['t1'] is None or x['t1'] >= t_trig)
+               for x in calls):
+            res.label('trigger-while-a-daemon-is-being-stopped')
         res.label('trigger:' + trig)
         res.nontrivial = (inflight_d and inflight_h) or during_startup
     if will_fail:
